@@ -54,13 +54,13 @@ pub enum Op {
     /// `q.iter_mut().for_each(..)`: the i-th visited element gets writes[i] (None = untouched)
     IterMutForEach { writes: Vec<Option<i32>> },
     /// `q.iter_mut().find(..)` stopping at the j-th element, which gets a priority written
-    IterMutFind { stop_at: u8, prio: i32 },
+    IterMutFind { stop_at: u32, prio: i32 },
     /// `q.clone_from(&other)` where other is built from these pairs
     CloneFrom(Vec<Pair>),
     Extend(Vec<Pair>, Hint),
     Append(Vec<Pair>),
     Clear,
-    Drain { front: u8, back: u8, end: End },
+    Drain { front: u32, back: u32, end: End },
     CloneSwap,
     Reserve(usize),
     ReserveExact(usize),
@@ -440,7 +440,7 @@ pub fn step<Q: QueueLike>(q: &mut Q, op: &Op, m: &mut Model, unordered: &mut boo
         }
         Op::IterMutFind { stop_at, prio } => {
             let mut it = q.q_iter_mut();
-            let mut n = 0u8;
+            let mut n = 0u32;
             let found = it.find_(&mut |_t: &(&mut Item, &mut Prio)| {
                 n += 1;
                 n > *stop_at
